@@ -5,9 +5,11 @@ import (
 	"fmt"
 	"os"
 	"path/filepath"
+	"runtime"
 	"sort"
 	"strings"
 	"time"
+	"verif/engine/smt"
 )
 
 type TierSpec struct {
@@ -96,6 +98,7 @@ func RunCheck(s *Session, verifDir, id, tier string, spec CheckSpec, known []Kno
 	coversSat := 0
 	knownSeen := map[string]bool{}
 	var preps []*Prepared
+	solved := 0
 	for i, h := range ts.Harnesses {
 		if h.Tag == "" {
 			h.Tag = fmt.Sprintf("%s-%s-h%d", id, tier, i)
@@ -104,8 +107,18 @@ func RunCheck(s *Session, verifDir, id, tier string, spec CheckSpec, known []Kno
 			h.Filter = []string{id}
 		}
 		preps = append(preps, s.Prepare(h))
+		// bound memory: once a batch of encodings is large, discharge it and release its terms
+		if smt.NumTerms > batchTerms && i+1 < len(ts.Harnesses) {
+			s.SolveAll(preps[solved:])
+			for _, p := range preps[solved:] {
+				p.release()
+			}
+			solved = len(preps)
+			smt.ResetTable()
+			runtime.GC()
+		}
 	}
-	s.SolveAll(preps)
+	s.SolveAll(preps[solved:])
 	for _, p := range preps {
 		r := *p.res
 		h := r.Spec
@@ -216,24 +229,24 @@ func RunCheck(s *Session, verifDir, id, tier string, spec CheckSpec, known []Kno
 		transitions += r.Instrs
 	}
 	cov := map[string]interface{}{
-		"explanation": spec.Explanation + " Each harness below was executed symbolically from /repo's current SSA; every listed query is the solver's verdict over all values of the symbolic inputs within the stated bounds (unsat = holds; cover queries must be sat). Counterexamples are replayed natively before being reported.",
-		"functions_encoded": fl,
-		"stubs_in_force":    sl,
-		"harnesses":         hs,
-		"obligations":       obligations,
-		"discharged":        discharged,
-		"inconclusive":      inconclusive,
-		"queries":           queries,
-		"solver_time_s":     round2(solverTime),
-		"evaluations":       queries,
-		"distinct_nontrivial": obligations,
-		"rule":              "one evaluation = one SMT query (obligation or vacuity guard) over all symbolic inputs; distinct_nontrivial counts distinct obligations (grouped by assertion site / message) that were not closed by the simplifier alone",
-		"samples":           samples,
-		"states":            states,
-		"transitions":       transitions,
+		"explanation":                   spec.Explanation + " Each harness below was executed symbolically from /repo's current SSA; every listed query is the solver's verdict over all values of the symbolic inputs within the stated bounds (unsat = holds; cover queries must be sat). Counterexamples are replayed natively before being reported.",
+		"functions_encoded":             fl,
+		"stubs_in_force":                sl,
+		"harnesses":                     hs,
+		"obligations":                   obligations,
+		"discharged":                    discharged,
+		"inconclusive":                  inconclusive,
+		"queries":                       queries,
+		"solver_time_s":                 round2(solverTime),
+		"evaluations":                   queries,
+		"distinct_nontrivial":           obligations,
+		"rule":                          "one evaluation = one SMT query (obligation or vacuity guard) over all symbolic inputs; distinct_nontrivial counts distinct obligations (grouped by assertion site / message) that were not closed by the simplifier alone",
+		"samples":                       samples,
+		"states":                        states,
+		"transitions":                   transitions,
 		"traces_validated_against_impl": coversSat,
-		"checker_cmd":       fmt.Sprintf("./check %s --tier %s", id, tier),
-		"trusted_base":      []string{"gosmt SSA->SMT encoder (this repository)", "golang.org/x/tools/go/ssa v0.29.0", "z3 4.8.12 / cvc5 1.0", "stubs listed in stubs_in_force"},
+		"checker_cmd":                   fmt.Sprintf("./check %s --tier %s", id, tier),
+		"trusted_base":                  []string{"gosmt SSA->SMT encoder (this repository)", "golang.org/x/tools/go/ssa v0.29.0", "z3 4.8.12 / cvc5 1.0", "stubs listed in stubs_in_force"},
 	}
 	ev := Evidence{PropertyID: id, Tier: tier, Seed: seed, Level: spec.Level, Coverage: cov, Assumptions: spec.Assumptions, WallS: round2(wall), Violations: violations}
 	os.MkdirAll(filepath.Join(verifDir, "evidence"), 0o755)
@@ -270,3 +283,6 @@ func WriteLoadFailureEvidence(verifDir, id, tier string, seed int, msg string) {
 	data, _ := json.MarshalIndent(ev, "", " ")
 	os.WriteFile(filepath.Join(verifDir, "evidence", id+".json"), data, 0o644)
 }
+
+// batchTerms is the number of live SMT terms after which the harnesses prepared so far are discharged and released.
+const batchTerms = 1500000
